@@ -23,7 +23,7 @@ CHECKS = {
     "C11": ("msched", "model_checking", "6/C11", "All schedules of derivation chains over every handle kind with identity/is_alive/upgrade probes at every lifecycle point and after every termination cause; oracle: identity equals the spawn's, ids distinct, is_alive true before the end begins / false after join, upgrade agrees with harness-side reference bounds. Thread level (tsched, hook H4): every interleaving between 2-3 real OS threads of the operations on the process-wide state involved here is explored as well - 3x2 and 2x3 concurrent spawns through both entry points, ids pairwise distinct."),
     "C13": ("msched", "model_checking", "6/C13", "All schedules of every pair of tell/ask-family operations against an actor in each lifecycle state (live, parked, full, stopping, dead by four causes), direct and erased, build with test-utils; oracle: exactly one dead letter with matching reason/target/type/operation per failure, none per success, counter delta = failures. Thread level (tsched, hook H4): every interleaving between 2-3 real OS threads of the operations on the process-wide state involved here is explored as well - 3x2 and 2x3 failing tell/ask/blocking_tell against an ended actor, counter delta = records = failures."),
     "C17": ("bthreads", "exploration", "6/C17", "Operation-level exhaustive, thread-level free-running: every order of the operations of 2-4 callers (plain threads, spawn_blocking tasks, async tasks calling the timeout variants, async senders, gate openings, stop/kill) in 19 (20) scenarios - gated handler with capacity 1, timeouts against a full mailbox and a silent actor, actor stopped/killed under blocking callers, deprecated aliases, calls from inside the runtime, extreme timeout values, a bounded ask that gives up before the actor dies - handler panics under parked callers and under a waiting asker, a long next to a short deadline, callers inside a current-thread runtime - is run on the real code with real OS threads (build with test-utils); oracle: at most once, failed sends never handled, accepted ones handled, reply integrity, order of handling vs. observed completion and per-thread program order, Timeout never early and back by deadline + 0.8 s, aliases never time out, no panic, one dead letter per failed delivery naming target, message type and a reason matching the error, on_tell_result exactly once after a tell and never after an ask. A violation must recur when the same order is run again."),
-    "C19": ("c19", "model_checking", "6/C19", "Two exhaustive parts. (a) Bounded-exhaustive program enumeration: all 588 programs of the grammar actor shape (incl. actors generic over the handler error type, bounds inline or in a where clause) x return-type spelling x #[handler] option x message genericity/extra methods (each with a no_log and a plain Result neighbour handler) are compiled against the real macros; the 252 that an independent decision table (tools/gen_corpus.py, written from the documentation) says must compile are run for tell/ask x Ok/Err and compared with the table (Reply type equality, ask value, exactly one error log naming actor+message iff the table says so, never after ask, derive(Actor) infallible and on_start = identity); the 336 invalid combinations must be rejected, with the documented diagnostic where the macro itself diagnoses. (b) msched: all schedules of the C01 scenario family plus Result-returning messages with a hand-written on_tell_result: exactly once after a tell with the handler's value, never after an ask - including asks whose caller gave up."),
+    "C19": ("c19", "model_checking", "6/C19", "Two exhaustive parts. (a) Bounded-exhaustive program enumeration: all 840 programs of the grammar actor shape (incl. actors generic over the handler error type, bounds inline or in a where clause) x return-type spelling (incl. a four-segment Result path, a 9 KB error text, a Box<dyn Any + Send> reply) x #[handler] option x message genericity/extra methods (each with a no_log and a plain Result neighbour handler) are compiled against the real macros; the 364 that an independent decision table (tools/gen_corpus.py, written from the documentation) says must compile are run for tell/ask x Ok/Err and compared with the table (Reply type equality, ask value, exactly one error log naming actor+message iff the table says so, never after ask, derive(Actor) infallible and on_start = identity); the 476 invalid combinations must be rejected, with the documented diagnostic where the macro itself diagnoses. (b) msched: all schedules of the C01 scenario family plus Result-returning messages with a hand-written on_tell_result: exactly once after a tell with the handler's value, never after an ask - including asks whose caller gave up."),
     "C12": ("msched2", "model_checking", "6/C12", "All schedules (bound 2/3, capped per scenario) of a three-actor system (victim V, peers P and Q exchanging asks with V and with each other, two clients) with a crash injected at every hook of V - on_start panic/error, three different handlers, first and second on_run (panic and error), on_stop panic/error - and, in the all-features build, a provoked deadlock-detection panic (self-ask, and a genuine cycle with a peer); run on the all-features build and on the default build; oracle: the victim's JoinHandle reports the panic/failure, no on_stop after a panic, its senders get errors, the C01-C05/C08/C11 oracles hold for every surviving actor, dead-letter accounting is exact (C13 oracle), follow-up asks between survivors and to a freshly spawned actor succeed, ids advance, the wait-for graph is empty and its lock not poisoned."),
     "C14": ("msched", "model_checking", "6/C14", "Whole schedule tree (quick bound 3, in practice exhaustive) of ask rings of length 1-3 (4 thorough) whose edges are issued from every hook (on_start, handler, on_run, on_stop) and with every ask flavour (ask, ask_with_timeout, erased AskHandler), each edge with its own trigger so that the schedule decides the creation order, plus nested chains; build with deadlock-detection; oracle: an ask that closes a cycle of unanswered in-flight asks (harness-side relation) panics at once with a message naming every actor of the cycle, nobody is left waiting at global quiescence, the wait-for graph (hook H1) contains the edge of every blocked asker. Thread level (tsched, hook H4): every interleaving between 2-3 real OS threads of the operations on the process-wide state involved here is explored as well - ask rings of 2 and 3 actors each on its own thread and runtime, and a ring with a bystander: exactly one ring member panics, naming the ring; nobody is left waiting."),
     "C15": ("msched", "model_checking", "6/C15", "Same rings (where in most schedules the asks do not all overlap) plus acyclic-in-time/cyclic-in-topology families with every way an ask can end (reply, timeout, callee killed, callee panics, on_run cancelled), 2 and 3 actors, typed and erased; oracle: every Deadlock panic is justified by a chain of unanswered in-flight asks at that instant, only pending asks of their owner appear in the graph (H1), non-actor callers never appear or panic, the graph is empty once every ask has finished. This check found defect D1 (see known_findings.json), repaired by the fix: commit. Thread level (tsched, hook H4): every interleaving between 2-3 real OS threads of the operations on the process-wide state involved here is explored as well - the same rings: never more than one victim, never the bystander, graph empty at the end."),
@@ -46,10 +46,10 @@ TECH = {
     "C10": MSCHED_TECH + " under a virtual clock" + BT + "; plus exhaustive enumeration of the Error variants",
     "C11": MSCHED_TECH + TS + " (decide); a sampling multi-thread stress run is reported alongside, labelled non-deciding",
     "C12": MSCHED_TECH + ", on two builds" + BT,
-    "C20": MSCHED_TECH + ", on the metrics build and on the metrics+tracing build (decide); a sampling run with concurrent reader threads is reported alongside, labelled non-deciding",
+    "C20": MSCHED_TECH + ", on the metrics build and on the metrics+tracing build (decide); one deterministic execution of an actor with macro-generated handlers (handlers entered = message_count); a sampling run with concurrent reader threads is reported alongside, labelled non-deciding",
     "C13": MSCHED_TECH + BT + TS + " (decide); a sampling multi-thread stress run of the counter is reported alongside, labelled non-deciding",
-    "C15": MSCHED_TECH + TS + " (with tracing events as further scheduling points)",
-    "C14": MSCHED_TECH + TS + "; plus exhaustive enumeration of all acyclic functional graphs with <= 5 (6) nodes for the wait-for walk",
+    "C15": MSCHED_TECH + ", run on two builds of the harness (debug assertions on / off)" + TS + " (with tracing events as further scheduling points)",
+    "C14": MSCHED_TECH + ", run on two builds of the harness (debug assertions on / off)" + TS + "; plus exhaustive enumeration of all acyclic functional graphs with <= 5 (6) nodes for the wait-for walk",
     "C16": "differential stateless model checking: the whole schedule tree of a direct program and of each type-erased variant, same schedule => same observable trace" + BT,
     "C17": "exhaustive enumeration of operation-level orders of real OS threads driving the blocking API of the real code (thread timing inside one operation is free-running)",
     "C18": "stateless model checking per cargo-feature build: one harness build per feature set explores the same scenarios; per-scenario hash over all (schedule, feature-neutral trace) pairs compared with the default build",
